@@ -47,3 +47,36 @@ Definition num_eqb (a b : num) : bool :=
   | NF x, NF y => Qeq_bool x y
   | _, _ => false
   end.
+
+Definition optQ_eq (a b : option Q) : Prop :=
+  match a, b with
+  | Some x, Some y => x == y
+  | None, None => True
+  | _, _ => False
+  end.
+Definition optQ_list (a : option Q) : list Q := match a with Some x => [x] | None => [] end.
+
+(* x lies between a and b (in either direction): how a bound that moves monotonically
+   from its factor-0 value a towards its value b at a larger factor relates to the value
+   x at an intermediate factor *)
+Definition between (a x b : Q) : Prop := (a <= x /\ x <= b) \/ (b <= x /\ x <= a).
+
+(* executable, with the binary64 slack of approxQ *)
+Definition leQ_approx (a b : Q) : bool :=
+  Qle_bool a (b + (1 # 1000000000000) * (1 + Qabs a + Qabs b)).
+Definition betweenb (a x b : Q) : bool :=
+  (leQ_approx a x && leQ_approx x b) || (leQ_approx b x && leQ_approx x a).
+
+(* position-wise ternary relation on three lists of equal length *)
+Fixpoint all3 (P : Q -> Q -> Q -> Prop) (l1 l2 l3 : list Q) : Prop :=
+  match l1, l2, l3 with
+  | [], [], [] => True
+  | a :: l1, b :: l2, c :: l3 => P a b c /\ all3 P l1 l2 l3
+  | _, _, _ => False
+  end.
+Fixpoint all3b (P : Q -> Q -> Q -> bool) (l1 l2 l3 : list Q) : bool :=
+  match l1, l2, l3 with
+  | [], [], [] => true
+  | a :: l1, b :: l2, c :: l3 => P a b c && all3b P l1 l2 l3
+  | _, _, _ => false
+  end.
